@@ -11,6 +11,9 @@ from ..report import Outcome, tier
 from ..rulesgen import rules_xml, groups_of
 from ..world import World, make_scenario
 
+from ..drivers.cluster import Cluster as _Cluster
+E1_DRIVER = _Cluster('C13', ['C13'])
+
 RULES = [{'name': 'A', 'start_sequence': 0, 'programs': [{'name': 'a', 'start_sequence': 1, 'expected_loading': 10}]}]
 
 
@@ -146,9 +149,48 @@ def job(arg):
     return name, n, viols[:20], sorted(map(str, outcomes)), len(msgs)
 
 
+# ---------------------------------------------------------------------------------------------
+# E1: histories leading to isolation, explored end to end (slow handshakes, requests on the wire, partitions)
+# ---------------------------------------------------------------------------------------------
+def e1_configs(t):
+    from .membership import cfg as mcfg
+    out = []
+    # a late joiner whose handshake with the Master is slow (reply of its last XML-RPC late) while a TICK of the
+    # Master is on the wire: the Master fences the silent joiner meanwhile
+    c = mcfg(2, 5, 0, faults=['hang', 'lag'], fence=True, late=[1], warm=6, name='slow-handshake-late-joiner', cost=8)
+    c['hangable'], c['laggable'] = [[1, 0]], [[0, 1]]
+    out.append(c)
+    c = mcfg(2, 5, 0, faults=['hang', 'lag'], fence=True, late=[1], warm=6, name='slow-handshake-of-the-master', cost=8)
+    c['hangable'], c['laggable'] = [[0, 1]], [[1, 0]]
+    out.append(c)
+    # partition and healing, crash and restart, with fencing: both sides isolate each other for good
+    out.append(mcfg(2, 5, 0, F=1, faults=['isolate'], fence=True, warm=6, name='partition-heals-fenced', cost=5))
+    out.append(mcfg(2, 5, 0, F=1, faults=['crash', 'restart'], fence=True, warm=6, name='crash-restart-fenced', cost=5))
+    out.append(mcfg(3, 3, 0, F=1, faults=['isolate'], fence=True, warm=6, crashable=[2], name='n3-partition-heals-fenced',
+                    cost=8))
+    # differing strategies: never admitted, whatever the order of the handshakes (cold start)
+    c = mcfg(2, 4, 0, so='LIST', name='cold-start-mismatch-conciliation', cost=3)
+    c['config_of'], c['mismatch'] = {1: {'conciliation_strategy': 'STOP'}}, [[0, 1]]
+    out.append(c)
+    c = mcfg(2, 4, 1, so='LIST', name='cold-start-mismatch-starting-D1', cost=6)
+    c['config_of'], c['mismatch'] = {1: {'starting_strategy': 'LESS_LOADED'}}, [[0, 1]]
+    out.append(c)
+    if t == 'thorough':
+        deep = []
+        for c in out:
+            c2 = dict(c)
+            c2['D'] = c['D'] + 1
+            c2['T'] = c['T'] + 1
+            c2['name'] = c['name'] + '-deep'
+            c2['cost'] = c['cost'] * 10
+            deep.append(c2)
+        out += deep
+    return out
+
+
 def main():
     t = tier()
-    out = Outcome('C13', 'exploration')
+    out = Outcome('C13', 'model_checking')
     scs = scenarios()
     # handshake outcomes
     for name, (blob, receiver, peer, expect) in scs.items():
@@ -189,12 +231,30 @@ def main():
         distinct |= {(name, o) for o in outcomes}
         for v, case in viols:
             out.report(v, {'driver': 'C13', 'config': {}, 'events': [case]})
+    # E1
+    from ..drivers.cluster import Cluster
+    from ..explorer import run_batches, aggregate
+    from ..report import seed
+    global E1_DRIVER
+    cfgs = e1_configs(t)
+    cap = int(os.environ.get('VERIF_CAP_S', '0')) or (None if t == 'quick' else 2400)
+    known = set(out.findings)
+
+    def kw(c):
+        return {'deviations': c['D'], 'closure': 'none', 'max_seconds': cap, 'seed': seed(), 'known': known}
+    res_e1 = run_batches([(E1_DRIVER, cfgs, kw)])[0]
+    complete = aggregate(out, E1_DRIVER, cfgs, res_e1, '', [])
     cov = out.coverage
     cov['evaluations'] = total
     cov['distinct_nontrivial'] = len(distinct)
     cov['scenarios'] = sorted(scs)
     cov['samples'] = [{'scenario': r[0], 'sequences': r[1], 'alphabet': r[4], 'outcomes': r[3][:4]} for r in results[:4]]
-    cov['rule'] = ('isolation reached by silence under auto_fence, by the NOT_AUTHORIZED answer of the peer (reciprocity) and by '
+    cov['rule'] = ('E1 (explicit-state, real cores): late joiner / Master whose handshake is slow (the reply of its last '
+                   'XML-RPC is late) while a TICK is on the wire, partition + healing and crash + restart under auto_fence '
+                   '(2-3 instances), cold starts with differing strategies (all handshake orders, D<=1); monitors: once ISOLATED a '
+                   'status never changes, no XML-RPC towards an isolated peer (a request already on the wire excepted), a peer that has held us '
+                   'ISOLATED since before the current CHECKING period is never admitted, a peer with different strategies is '
+                   'never admitted.  Hostile part: isolation reached by silence under auto_fence, by the NOT_AUTHORIZED answer of the peer (reciprocity) and by '
                    'each of the four strategy options differing; then every sequence of forged messages of length <= 2 (3 in the '
                    'thorough tier) from the isolated peer (TICK, PROCESS, forced PROCESS, PROCESS_ADDED / REMOVED / DISABILITY, '
                    'STATE publications; IDENTIFICATION, AUTHORIZATION with every code, STATE, ALL_INFO, INSTANCE_FAILURE '
@@ -202,9 +262,12 @@ def main():
                    'nick only) is injected: the observable snapshot of the receiver must not change and nothing may be sent to '
                    'the isolated peer; the same alphabet against a STOPPED and a CHECKING peer: process events must be ignored. '
                    'distinct = distinct (scenario, peer state before, after, snapshot unchanged)')
-    return out.finish(exhaustive=True)
+    return out.finish(exhaustive=complete)
 
 
 def replay(payload):
+    if payload.get('driver') == 'cluster':
+        from .e1 import replay_e1
+        return replay_e1(payload, {'cluster': E1_DRIVER})
     print(payload['events'])
     return 0
